@@ -113,7 +113,10 @@ def run(ctx, replay=None):
         for kind, arg in srcs:
             T = rng.choice([2, 4, 8, 16] if thorough else [4, 8])
             rounds = rng.choice([2, 4, 8] if thorough else [2, 3])
-            lines = ["reset", "setup %s %s" % (kind, arg), "adopted",
+            # the shared topology is what load returned, or what a binding-restricted load returned, or a duplicate of either:
+            # each of them "has been loaded" and may be consulted concurrently right away
+            variant = ["", "+dup", "+bound", "+bound+dup"][(rep + len(behs)) % 4]
+            lines = ["reset", "setup %s%s %s" % (kind, variant, arg), "adopted",
                      "readers %d %d 0 %d" % (T, rounds, rng.randrange(1 << 30)),
                      "readers %d %d 1 %d" % (rng.choice([2, 4, 8, 16]), rounds, rng.randrange(1 << 30)),
                      "readers %d %d 1 %d" % (T, rounds, rng.randrange(1 << 30)),
